@@ -292,7 +292,8 @@ enum Scope {
 #[derive(Clone, Debug)]
 enum Op {
     Add(Scope, String),
-    /// add commands for DIFFERENT dictionary files whose handlers run concurrently (requests that arrive together)
+    /// add commands whose handlers run concurrently (requests that arrive together), for the same or for different
+    /// dictionaries; since cfbe845 they are serialised by Backend::dict_write_lock, so all of them must take effect
     Par(Vec<(Scope, String)>),
     /// write the dictionary file with the real save_dict (stands for a sequence of adds)
     Seed(Scope, Vec<String>),
@@ -641,9 +642,10 @@ fn run_hist(cx: &mut Cx, rep: &mut Report, h: &Hist, origin: &str) {
     for (oi, op) in h.ops.iter().enumerate() {
         match op {
             Op::Par(adds) => {
-                // only adds to pairwise different dictionary files are run concurrently (two adds to the same
-                // dictionary are a read-modify-write race by design of the command; not this check's domain)
-                let mut seen: Vec<PathBuf> = vec![];
+                // adds to the same dictionary are serialised by the server's lock in an order the client does not
+                // know: the outcome is order-independent unless two of them are different spellings of one id (F15:
+                // the later one wins) — such a batch has no single expected outcome, the later spelling is left out
+                let mut seen: Vec<(PathBuf, String)> = vec![];
                 let mut todo: Vec<(Scope, String, String)> = vec![];
                 for (sc, w) in adds {
                     let ui = match sc { Scope::User => 0usize, Scope::File(i) => *i };
@@ -651,10 +653,14 @@ fn run_hist(cx: &mut Cx, rep: &mut Report, h: &Hist, origin: &str) {
                         continue;
                     }
                     let Some(p) = dict_path(sc) else { continue };
-                    if seen.contains(&p) {
+                    if seen.iter().any(|(q, x)| *q == p && x != w && (real_id(x) == real_id(w) || !line_safe(x) || !line_safe(w))) {
+                        rep.count("hist:concurrent_add_left_out(other spelling of an id in the same batch)");
                         continue;
                     }
-                    seen.push(p);
+                    if seen.iter().any(|(q, _)| *q == p) {
+                        rep.count("hist:concurrent_adds_to_the_same_dictionary");
+                    }
+                    seen.push((p, w.clone()));
                     todo.push((sc.clone(), w.clone(), urls[ui].uri.clone()));
                 }
                 let futs: Vec<HandlerFut> = todo
@@ -669,7 +675,7 @@ fn run_hist(cx: &mut Cx, rep: &mut Report, h: &Hist, origin: &str) {
                     return;
                 }
                 rep.count(&format!("hist:concurrent_adds_{}", todo.len()));
-                // the dictionaries are different files: the outcome must be that of the adds one after the other
+                // the outcome must be that of the adds one after the other (Coq: C07_locked_adds_serial)
                 for (sc, w, _) in &todo {
                     chars.extend(w.chars());
                     allwords.insert(w.clone());
@@ -1425,6 +1431,15 @@ fn gen_hist(r: &mut Rng, crash: bool, malformed: bool) -> Hist {
                 if r.chance(1, 2) {
                     v.push((Scope::User, pool[r.below(pool.len())].clone()));
                 }
+                // ... and several for one dictionary ("add all"): fresh words, so that the outcome is order-independent
+                if r.chance(2, 3) {
+                    let sc = if r.chance(1, 2) { Scope::User } else { Scope::File(r.below(urls.len())) };
+                    for _ in 0..r.range(2, 4) {
+                        let w = made_up(r);
+                        pool.push(w.clone());
+                        v.push((sc.clone(), w));
+                    }
+                }
                 ops.push(Op::Par(v));
             }
             8 => ops.push(Op::Restart),
@@ -1574,10 +1589,11 @@ fn probe_stale(cx: &mut Cx, rep: &mut Report, rounds: u64, origin: &str) {
     }
 }
 
-/// FC07g probe (outside the correspondence: the model runs commands one after the other).  Several add commands
-/// for the SAME dictionary that arrive together are handled concurrently by tower-lsp; each loads the dictionary,
-/// appends its word and writes the whole file back (through the same <name>.tmp): the last rename wins and the
-/// other words are lost without any crash.
+/// FC07g regression probe (repaired by cfbe845; the same batches also run through the histories, op `par`).  Several
+/// add commands for the SAME dictionary that arrive together are handled concurrently by tower-lsp; each loaded the
+/// dictionary, appended its word and wrote the whole file back (through the same <name>.tmp): the last rename won and
+/// the other words were lost without any crash.  Oracle: every word is in its dictionary file afterwards and is
+/// accepted by a check in the session and after a restart.
 fn probe_par_same(cx: &mut Cx, rep: &mut Report, rounds: u64, origin: &str) {
     let user_words = ["quxly", "vlimp", "zorgle"];
     let file_words = ["blorfy", "krunkle"];
@@ -1600,8 +1616,22 @@ fn probe_par_same(cx: &mut Cx, rep: &mut Report, rounds: u64, origin: &str) {
         let ok1 = s.drive_all(futs);
         let futs: Vec<HandlerFut> = file_words.iter().map(|w| s.start("workspace/executeCommand", json!({"command": "HarperAddToFileDict", "arguments": [w, uri]}), true)).collect();
         let ok2 = s.drive_all(futs);
+        let text = "Here quxly vlimp zorgle blorfy krunkle are.";
+        let flagged_words = |s: &mut Session, first: bool| -> Vec<String> {
+            if first {
+                s.did_open(&uri, "plaintext", text);
+            } else {
+                s.did_change(&uri, text);
+            }
+            s.last_published(&uri).map(|d| misspelt_words(d, text)).unwrap_or_default()
+        };
+        let in_session = flagged_words(&mut s, true);
         s.request("shutdown", Value::Null);
         drop(s);
+        let mut s2 = Session::new(settings(&user, &fd, &format!("{d}/stats.txt"), json!({})));
+        let after_restart = flagged_words(&mut s2, true);
+        s2.request("shutdown", Value::Null);
+        drop(s2);
         if !ok1 || !ok2 {
             rep.fail("stuck", "concurrent add commands did not complete".into(), json!({"kind": "par-same", "rounds": 1, "origin": origin}));
         }
@@ -1609,11 +1639,14 @@ fn probe_par_same(cx: &mut Cx, rep: &mut Report, rounds: u64, origin: &str) {
         let fpath = file_dict_name(&url).map(|n| Path::new(&fd).join(n)).ok();
         let got_file: Vec<String> = fpath.and_then(|p| cx.rt.block_on(load_dict(&p)).ok()).map(|d| words_of(&d)).unwrap_or_default();
         let missing: Vec<&str> = user_words.iter().filter(|w| !got_user.iter().any(|g| g == *w)).chain(file_words.iter().filter(|w| !got_file.iter().any(|g| g == *w))).cloned().collect();
-        if !missing.is_empty() {
+        let reported: Vec<&String> = in_session.iter().chain(after_restart.iter()).filter(|w| user_words.contains(&w.as_str()) || file_words.contains(&w.as_str())).collect();
+        if !missing.is_empty() || !reported.is_empty() {
             lost_rounds += 1;
             if example.is_empty() {
-                example = format!("user dictionary = {:?}, file dictionary = {:?}, missing {:?}", got_user, got_file, missing);
+                example = format!("user dictionary = {:?}, file dictionary = {:?}, missing {:?}; reported as misspelt in the session {:?}, after a restart {:?}", got_user, got_file, missing, in_session, after_restart);
             }
+        } else {
+            rep.count("oracle:concurrent_adds_all_kept");
         }
         let _ = std::fs::remove_dir_all(&dir);
     }
@@ -1622,7 +1655,7 @@ fn probe_par_same(cx: &mut Cx, rep: &mut Report, rounds: u64, origin: &str) {
     if lost_rounds > 0 {
         rep.fail(
             "concurrent-adds-lose-words",
-            format!("three HarperAddToUserDict and two HarperAddToFileDict commands sent together (handled concurrently): in {lost_rounds} of {rounds} rounds words that were added are not in the dictionary file afterwards, e.g. {example}"),
+            format!("three HarperAddToUserDict and two HarperAddToFileDict commands sent together (handled concurrently): in {lost_rounds} of {rounds} rounds words that were added are not in the dictionary file afterwards or are reported as misspelt, e.g. {example}"),
             json!({"kind": "par-same", "rounds": rounds, "origin": origin}),
         );
     }
